@@ -14,7 +14,7 @@ ID = "C02"
 LEVEL = "exploration"
 TECHNIQUE = "differential oracle: DSL-built tree vs plain Python arithmetic on the same tree"
 RULE = ("depth-2: every (outer op, operand position, inner op) over + - * / ** % neg, 6 comparisons, If/And/Or/Not, "
-        "min max abs sqrt exp round and 7 array aggregates, x4 leaf-kind rotations (constant, converter, stock, python "
+        "min max abs sqrt exp sin cos tan arctan round and 7 array aggregates, x4 leaf-kind rotations (constant, converter, stock, python "
         "float left/right, time()); deeper: seeded random typed trees of depth 3-5. Each tree runs in 2 contexts "
         "(converter; stock equation through one Euler step). distinct_nontrivial = distinct (outer,pos,inner) triples "
         "(or tree digests for deep trees) whose value changes when compound operands are pasted without parentheses.")
@@ -45,7 +45,7 @@ def shapes():
     s.append((("not",), ["b"], "b"))
     for f in ("min", "max"):
         s.append((("fn", f), ["n", "n"], "n"))
-    for f in ("abs", "sqrt", "exp"):
+    for f in ("abs", "sqrt", "exp", "sin", "cos", "tan", "arctan"):
         s.append((("fn", f), ["n"], "n"))
     s.append((("fn", "round"), ["n"], "n"))
     return s
@@ -170,7 +170,7 @@ def naive_python(a, env):
     if k == "fn":
         if a[1] == "round":
             return "round(%s,%d)" % (naive_python(a[2], env), a[3])
-        f = {"sqrt": "math.sqrt", "exp": "math.exp"}.get(a[1], a[1])
+        f = {"sqrt": "math.sqrt", "exp": "math.exp", "sin": "math.sin", "cos": "math.cos", "tan": "math.tan", "arctan": "math.atan"}.get(a[1], a[1])
         return "%s(%s)" % (f, ",".join(naive_python(z, env) for z in a[2:]))
     raise KeyError(k)
 
